@@ -294,6 +294,8 @@ def clean_replay(pid):
 
 
 def write_evidence(pid, tier, level, coverage, assumptions, wall, nviol):
+    if os.environ.get('VERIF_NOEVIDENCE'):     # seeded-change self tests must not overwrite evidence
+        return
     os.makedirs(os.path.join(VERIF, 'evidence'), exist_ok=True)
     ev = {'property_id': pid, 'tier': tier, 'seed': seed(), 'level': level, 'coverage': coverage,
           'assumptions': assumptions, 'wall_s': round(wall, 2), 'violations': nviol}
